@@ -12,4 +12,54 @@ theorem fwdHeaderSites_ok : fwdHeaderSites = ([
 
 theorem realIPParserConfig_ok : realIPParserConfig = (["if o.ReverseProxy { o.SetRealClientIPParser }", "call"] : List String) := rfl
 
+theorem skel_GetRequestPath_ok : skel_GetRequestPath = ([
+  "if err == nil",
+  "url.ParseRequestURI",
+  "return parsedURL.Path",
+  "if idx != -1",
+  "strings.Index",
+  "return uri[:idx]",
+  "return uri"] : List String) := rfl
+
+theorem skel_GetRequestURI_ok : skel_GetRequestURI = ([
+  "req.Header.Get",
+  "if !IsProxied(req) || uri == \"\"",
+  "IsProxied",
+  "return uri"] : List String) := rfl
+
+theorem skel_GetRequestHost_ok : skel_GetRequestHost = ([
+  "req.Header.Get",
+  "if !IsProxied(req) || host == \"\"",
+  "IsProxied",
+  "return host"] : List String) := rfl
+
+theorem skel_GetRequestProto_ok : skel_GetRequestProto = ([
+  "req.Header.Get",
+  "if !IsProxied(req) || proto == \"\"",
+  "IsProxied",
+  "return proto"] : List String) := rfl
+
+theorem skel_redirectToHTTPS_ok : skel_redirectToHTTPS = ([
+  "return http.HandlerFunc(func(rw http.ResponseWriter, req *http.Requ",
+  "func{",
+  "if strings.EqualFold(proto, httpsScheme) || (req.TLS != nil && proto == req.URL.Scheme)",
+  "strings.EqualFold",
+  "next.ServeHTTP",
+  "return",
+  "url.Parse",
+  "if targetURL.Port() != \"\"",
+  "net.SplitHostPort",
+  "http.Redirect"] : List String) := rfl
+
+theorem skel_OAuthProxy_isTrustedIP_ok : skel_OAuthProxy_isTrustedIP = ([
+  "if p.trustedIPs == nil && req.RemoteAddr != \"@\"",
+  "return false",
+  "ip.GetClientIP",
+  "if err != nil",
+  "return false",
+  "if remoteAddr == nil",
+  "return false",
+  "return p.trustedIPs.Has(remoteAddr)",
+  "p.trustedIPs.Has"] : List String) := rfl
+
 end O2P.Expect.C16
